@@ -572,6 +572,33 @@ func checkTape(check func(string, bool, string), pfx string, tape []tapeEv, nt n
 			misplaced = append(misplaced, t.Name)
 		}
 	}
+	// a token's position is taken at the token: the store of a position field is directly followed by the cursor advance
+	// over that token (nothing is rendered and nothing else advances the cursor in between)
+	var loose []string
+	for i, t := range tape {
+		if t.K != "Pos" {
+			continue
+		}
+		if strings.HasPrefix(nt.Name, "Bad") && t.Field == "To" {
+			// the one end position the restorer assigns: directly after the advance over the bad text
+			if i == 0 || tape[i-1].K != "Tok" {
+				loose = append(loose, "To not directly after the advance over the bad text")
+			}
+			continue
+		}
+		j := i + 1
+		for j < len(tape) && tape[j].K == "Pos" {
+			j++ // several fields of one token (e.g. a keyword and its operator position)
+		}
+		if j >= len(tape) || (tape[j].K != "Tok" && tape[j].K != "Lit") {
+			nxt := "the end of the case"
+			if j < len(tape) {
+				nxt = tape[j].K + "(" + tape[j].Name + tape[j].Src + ")"
+			}
+			loose = append(loose, t.Field+" then "+nxt)
+		}
+	}
+	check(pfx+"position_taken_at_its_token", len(loose) == 0, fmt.Sprintf("position stores not directly followed by the advance over their token: %v; %s", loose, what))
 	check(pfx+"named_points_follow_namesake", len(misplaced) == 0, fmt.Sprintf("%d points with a namesake child/token, %d placed directly after it, misplaced %v; %s", withNamesake, placed, misplaced, what))
 	// every child/list field rendered exactly once (the parent context strings name type and field)
 	seen := map[string]int{}
